@@ -416,6 +416,7 @@ def run(ctx):
     ctx.rec.nontrivial_n = ctx.rec.traces
     ctx.rec.evaluations = ctx.rec.traces
     if capped:
+        ctx.exhaustive = False
         ctx.notes.append(ctx.bounds['capped'])
     ctx.guard('state space explored', ctx.rec.states > 500 and ctx.rec.traces > 5000, (ctx.rec.states, ctx.rec.traces))
 
